@@ -181,6 +181,21 @@ theorem redeploy_is_fresh (s : St) (hlive : s.stopped = false) (haf : s.ackFails
     simp only [redeploy]
     rw [hs]
 
+/-- **An abandoned call is never applied.** For every schedule whatsoever (any start state, failures and redeploys
+included): once a redeploy has turned sender `sr` away (it was parked behind its barrier of the abandoned
+checkpoint), the consumer takes an item of `sr` only after `sr` has started a new `HandleEvent` call — the
+post-barrier item of the previous deployment that the parked call carried never reaches the new deployment's
+state. (Letting the parked callers through instead of failing them breaks exactly this.) -/
+theorem abandoned_call_never_applied (s0 : St) (as : List Act) (pre mid post : List Obs) (l : List Nat)
+    (sr : Nat) (it : Item) (hsr : sr ∈ l)
+    (h : (runFrom s0 [] as).2 = pre ++ Obs.redeployed l :: (mid ++ Obs.proc sr it :: post)) :
+    ∃ b, Obs.aligned sr b ∈ mid := by
+  obtain ⟨_, hok⟩ := runFrom_away as s0 [] (by intro x hx; cases hx) trivial
+  rw [h, awayOK_append] at hok
+  have h2 := hok.2
+  simp only [awayOK] at h2
+  exact awayOK_new_call mid _ post (List.mem_append_left _ hsr) h2
+
 /-! ## what the code guarantees when the ack to the job fails -/
 
 /-- the completing barrier still flushes the batch and takes the snapshot, the sender gets the error, and the
